@@ -8,7 +8,7 @@ the in-process runtime with a valid account set once per signer class; (b) stati
 import glob, json, os, re
 import vlib
 
-REPO = "/repo"
+REPO = vlib.REPO
 PROGRAMS = {"store": "programs/store", "treasury": "programs/treasury", "timelock": "programs/timelock",
             "competition": "programs/competition", "liquidity_provider": "programs/liquidity-provider"}
 AUTH_ERRS = {"NotAnAdmin", "PermissionDenied", "ConstraintHasOne", "ConstraintSeeds", "ConstraintRaw", "OwnerMismatched",
